@@ -37,7 +37,7 @@ def _is_mutable_expr(v):
         (isinstance(v, ast.Call) and isinstance(v.func, ast.Name) and v.func.id in MUTABLE_CALLS)
 
 
-SCAN_PROPS = ["C12", "C13", "C19", "C07", "C02", "C05"]
+SCAN_PROPS = ["C%02d" % i for i in range(1, 20) if i != 14]       # shared hidden state can break any property about behaviour
 PROCESS_STATE_CALLS = {"np.seterr", "np.seterrcall", "np.setbufsize", "np.set_printoptions", "np.random.seed", "random.seed", "os.chdir", "os.umask", "os.putenv",
                        "os.unsetenv", "sys.setrecursionlimit", "sys.setswitchinterval", "locale.setlocale", "warnings.simplefilter", "warnings.filterwarnings",
                        "warnings.resetwarnings", "sym.init_printing", "sympy.init_printing", "decimal.setcontext", "gc.disable", "gc.enable", "gc.set_threshold",
